@@ -6,6 +6,7 @@ the code by the differential harness `h page`); the constructor facts come from 
 (`Generated.Page`). Lemmas: `Proofs/Page.lean`.
 -/
 import GoUtils.Proofs.Page
+import GoUtils.Proofs.PageStream
 import GoUtils.Generated.Page
 import GoUtils.Verdict
 
@@ -102,5 +103,75 @@ def C19_verdict_ctor : Verdict C19_CtorStatement := by
   first
   | exact .holds (by unfold C19_CtorStatement; decide)
   | exact .fails (by unfold C19_CtorStatement; decide)
+
+/-! ### stream clause: "keeps yielding items of future pages until it has been told the stream is drying
+    up and the grace period has elapsed" — `Model.PageStream` is the loop of the stream paginators' HasNext
+    in logical time, its shape (`Generated.Page.stream`) is regenerated from the source on every run -/
+
+open GoUtils.PageStream in
+/-- FULL statement for a loop shape `f`: for every grace period `T`, polling gap `g`, start instant and every
+    well-timed history of polls (with or without an item), DryUp calls and cancellations: when HasNext gives
+    up because the grace period has elapsed, at instant `τ`, then DryUp had been called at some `td` with
+    `td + T ≤ τ + g` (the iteration went on for the grace period, minus one polling gap, after it was told). -/
+def C19_StreamGraceStatement (f : GoUtils.PageStream.SFacts) : Prop :=
+  ∀ (T g t0 : Nat) (evs : List Ev), WellTimed g t0 t0 false evs →
+    ∀ τ, (run f T (init t0) evs).stopped = some (.graceElapsed τ) →
+      ∃ td, Ev.dryUp td ∈ evs ∧ td + T ≤ τ + g
+
+open GoUtils.PageStream in
+theorem C19_stream_grace_when_refreshed (f : GoUtils.PageStream.SFacts) (h1 : f.refreshOnItem = true)
+    (h2 : f.refreshWhileNotDry = true) : C19_StreamGraceStatement f := by
+  intro T g t0 evs hwt τ hstop
+  obtain ⟨td, hmem, hle⟩ := grace_general f h1 h2 T g evs (init t0) t0 t0 false [] (inv_init g t0) hwt τ hstop
+  rcases hmem with hm | hm
+  · cases hm
+  · exact ⟨td, hm, hle⟩
+
+open GoUtils.PageStream in
+/-- without the refresh while the stream is not dry the clock runs from the last item (or the construction):
+    a stream that has been quiet for longer than the grace period is given up at the first poll after DryUp -/
+theorem C19_stream_grace_witness (f : GoUtils.PageStream.SFacts) (h2 : f.refreshWhileNotDry = false) :
+    ¬ C19_StreamGraceStatement f := by
+  intro h
+  have := h 5 1 0 [.empty 1, .empty 2, .empty 3, .empty 4, .empty 5, .empty 6, .dryUp 6, .empty 7]
+    (by simp [WellTimed]) 7 (by simp [PageStream.run, PageStream.step, PageStream.poll, PageStream.init, h2])
+  obtain ⟨td, hmem, hle⟩ := this
+  simp at hmem
+  subst hmem
+  omega
+
+def C19_verdict_stream_grace : Verdict (C19_StreamGraceStatement Generated.Page.stream) := by
+  first
+  | exact .holds (C19_stream_grace_when_refreshed _ (by decide) (by decide))
+  | exact .fails (C19_stream_grace_witness _ (by decide))
+
+open GoUtils.PageStream in
+/-- the stream paginator never gives up unasked: without DryUp and without cancellation HasNext never answers
+    false for good, however long the stream stays quiet (any loop shape) -/
+theorem C19_stream_never_stops_unasked (T t0 : Nat) (evs : List Ev)
+    (h : ∀ e ∈ evs, (∃ τ, e = .item τ) ∨ (∃ τ, e = .empty τ)) :
+    (run Generated.Page.stream T (init t0) evs).stopped = none :=
+  never_stops_unasked _ T evs (init t0) rfl rfl rfl h
+
+open GoUtils.PageStream in
+/-- "after Stop/Close or cancellation nothing more is yielded" needs HasNext to RETURN: with the context test
+    in the loop the first turn after the cancellation answers false; without it a stream that is not dry is
+    polled for ever (the defect repaired in the repository: see the known findings) -/
+def C19_StreamStopsStatement (f : GoUtils.PageStream.SFacts) : Prop :=
+  ∀ (T : Nat) (s : PageStream.St) (τ : Nat) (b : Bool), s.cancelled = true → (PageStream.poll f T s τ b).stopped.isSome = true
+
+def C19_verdict_stream_returns_after_stop : Verdict (C19_StreamStopsStatement Generated.Page.stream) := by
+  first
+  | exact .holds (fun T s τ b hc => GoUtils.PageStream.cancelled_poll_stops _ (by decide) T s τ b hc)
+  | exact .fails (fun h => by
+      have := h 0 { GoUtils.PageStream.init 0 with cancelled := true } 1 false rfl
+      revert this
+      simp [GoUtils.PageStream.poll, GoUtils.PageStream.init, show Generated.Page.stream.contextTested = false by decide])
+
+/-- non-vacuity: a well-timed history in which the grace period does elapse -/
+example : (GoUtils.PageStream.run Generated.Page.stream 5 (GoUtils.PageStream.init 0)
+    [.item 1, .empty 2, .dryUp 3, .empty 4, .item 5, .empty 9, .empty 10]).stopped = some (.graceElapsed 10) := by decide
+example : GoUtils.PageStream.WellTimed 1 0 0 false [.item 1, .empty 2, .dryUp 3, .empty 4, .item 5, .empty 9, .empty 10] := by
+  simp [GoUtils.PageStream.WellTimed]
 
 end GoUtils.Props.C19
